@@ -181,8 +181,17 @@ class Run:
         from iOpt.solver import Solver
         from iOpt.solver_parametrs import SolverParameters
         self.recipe, self.params = recipe, params
-        self.n = recipe["n"]
-        self.problem = LoggedProblem(recipe["n"], recipe["lower"], recipe["upper"], recipe["obj"], clock=clock)
+        self.n = recipe.get("n")
+        if "shipped" in recipe:
+            from vlib.objectives import LoggedShipped, make_shipped
+            self.problem = LoggedShipped(make_shipped(*recipe["shipped"]), clock=clock)
+            recipe = dict(recipe, n=self.problem.numberOfFloatVariables,
+                          lower=[float(v) for v in self.problem.lowerBoundOfFloatVariables],
+                          upper=[float(v) for v in self.problem.upperBoundOfFloatVariables])
+            self.recipe = recipe
+            self.n = recipe["n"]
+        else:
+            self.problem = LoggedProblem(recipe["n"], recipe["lower"], recipe["upper"], recipe["obj"], clock=clock)
         if default_params:
             self.solver = Solver(self.problem)
             self.sp = self.solver.parameters
@@ -231,3 +240,14 @@ def hoelder_eps_cmp(d, eps):
     if abs(d - eps) <= 4 * math.ulp(max(abs(d), abs(eps))):
         return 0
     return -1 if d < eps else 1
+
+
+def swallowed_exception_is_float_resolution(run):
+    """After a Solve() that printed 'Exception was thrown': True iff the independent model confirms that
+    the float midpoint rule has hit an end point (needs a Run created with record=True)."""
+    hist = run.history()
+    if len(hist) < 1 or len(hist) != len(run.problem.log):
+        return False
+    r = run.sp.r
+    model, _ = replay_history(run.n, r, hist, check_rule=False)
+    return model.next_is_degenerate()
